@@ -38,6 +38,8 @@ EmitModel ==
      LET tk == Toks(m) f == Build(T, tk) IN
      PrintT(ToJson([text |-> Text(T, tk, "spaced", FALSE), flat_wo |-> FlatShape(f), flat |-> FlatShape(Compile(f)),
                     deep |-> DeepShape(DParse(T, tk).e),
-                    up |-> Unparse(T, DParse(T, tk).e, <<64>>, TRUE)]))      \* `@`: any number node that is not a plain literal
+                    up |-> Unparse(T, DParse(T, tk).e, <<64>>, TRUE),
+                    \* step level: the decisions of compile() and the steps of eval_binary, as the hooks report them
+                    comp |-> CompileSteps(f), steps_wo |-> EvalSteps(f), steps |-> EvalSteps(Compile(f))]))      \* `@`: any number node that is not a plain literal
 ASSUME Emit => PrintT(ToJson([table |-> T]))
 =============================================================================
